@@ -325,7 +325,7 @@ def _filled(value, prev):
             return prev(eng, args, kwargs)
         dt = kwargs.get("dtype", args[1] if len(args) > 1 else None)
         k = npmodels.kind_of_dtype(dt) if dt is not None else "real"
-        used(eng, "np.zeros/np.ones with a symbolic first dimension")
+        used(eng, "np.zeros/np.ones/np.full with a symbolic first dimension")
         n = sh[0]
         if not (isinstance(n, Sym) and n.kind == "int") or any(not isinstance(x, int) for x in sh[1:]) or len(sh) > 2:
             raise Unsupported("symbolic shape form")
@@ -337,6 +337,48 @@ def _filled(value, prev):
         return S2ArrW([const] * sh[1], n.z, k)
 
     return model
+
+
+_prev_full = _prev(np.full)
+
+
+def np_full(eng, args, kwargs):
+    sh = _sym_shape(args[0]) if args else None
+    if sh is None or len(sh) != 1:
+        return _prev_full(eng, args, kwargs)
+    fv = kwargs.get("fill_value", args[1] if len(args) > 1 else None)
+    dt = kwargs.get("dtype", args[2] if len(args) > 2 else None)
+    k = npmodels.kind_of_dtype(dt) if dt is not None else kind_of(fv)
+    used(eng, "np.zeros/np.ones/np.full with a symbolic first dimension")
+    n = sh[0]
+    if not eng.branch(eng.sbool(n.z >= 0)):
+        raise ProgExc(ValueError, "negative dimensions are not allowed")
+    return SArr(z3.K(z3.IntSort(), to_z3(narr.cast(eng, fv, k), k)), n.z, k, name="full", dtype=dt)
+
+
+def _patch_s2arr():
+    prev = S2Arr.__pyvc_getattr__
+    if getattr(prev, "_c16", False):
+        return
+
+    def __pyvc_getattr__(self, eng, name):
+        if name == "ndim":
+            return 2
+        return prev(self, eng, name)
+
+    __pyvc_getattr__._c16 = True
+    S2Arr.__pyvc_getattr__ = __pyvc_getattr__
+    prev_get = S2Arr.__pyvc_getitem__
+
+    def __pyvc_getitem__(self, eng, idx):
+        # a[:, j]: the column (the shared implementation tests the (row, j) form first and trips over the slice)
+        if not self.transposed and isinstance(idx, tuple) and len(idx) == 2 and isinstance(idx[0], slice) and idx[0] == slice(None) and isinstance(idx[1], int):
+            if not -self.k <= idx[1] < self.k:
+                raise ProgExc(IndexError, "column index out of bounds")
+            return SArr(self.cols[idx[1]], self.n, self.kind, name="col")
+        return prev_get(self, eng, idx)
+
+    S2Arr.__pyvc_getitem__ = __pyvc_getitem__
 
 
 # ----------------------------------------------------------------- np.array
@@ -398,6 +440,84 @@ def setitem(eng, base, idx, val):
     return _prev_setitem(eng, base, idx, val)
 
 
+# ------------------------------------------- np.reshape / argmin / unravel_index
+def np_reshape(eng, args, kwargs):
+    a = narr._as_narr(eng, args[0]) if not isinstance(args[0], NArr) else args[0]
+    shp = kwargs.get("newshape", kwargs.get("shape", args[1] if len(args) > 1 else None))
+    if isinstance(shp, PList):
+        shp = tuple(shp.items)
+    used(eng, "np.reshape: row-major re-indexing")
+    try:
+        ix = narr.idx_of(a).reshape(shp)
+    except (ValueError, TypeError) as e:
+        raise ProgExc(ValueError, str(e))
+    return narr.from_index(a.items, ix, a.kind, a.dtype)
+
+
+def _is_inf(v):
+    return isinstance(v, float) and math.isinf(v)
+
+
+def np_argmin(eng, args, kwargs):
+    """np.argmin of a concrete-shape array (flattened): the FIRST position of the minimum; decided by forking on
+    the comparisons.  +inf entries (kept as the float itself) are never smaller than anything."""
+    a = args[0]
+    if not isinstance(a, NArr) or kwargs or len(args) != 1:
+        raise Unsupported("np.argmin form")
+    used(eng, "np.argmin: first position of the minimum of the flattened array")
+    items = a.items
+    if not items:
+        raise ProgExc(ValueError, "attempt to get argmin of an empty sequence")
+    cur = None
+    for j, v in enumerate(items):
+        if _is_inf(v) and v > 0:
+            continue
+        if cur is None:
+            cur = j
+        elif eng.branch(eng.compare(ast.Lt(), v, items[cur])):
+            cur = j
+    return cur if cur is not None else 0
+
+
+def np_unravel_index(eng, args, kwargs):
+    i, shp = args[0], args[1]
+    if isinstance(i, Sym) or any(isinstance(x, Sym) for x in shp):
+        raise Unsupported("np.unravel_index on symbolic data")
+    try:
+        return tuple(int(x) for x in np.unravel_index(int(i), tuple(int(x) for x in shp)))
+    except ValueError as e:
+        raise ProgExc(ValueError, str(e))
+
+
+_prev_cast = narr.cast
+
+
+def cast(eng, x, kind):
+    # +-inf has no real value: it is kept as the float itself (only np.argmin above understands it; any arithmetic on
+    # it raises inside the engine, i.e. a machinery error, never a wrong proof)
+    if _is_inf(x) and kind == "real":
+        return x
+    return _prev_cast(eng, x, kind)
+
+
+# ----------------------------------------------- obj.__getattribute__(name)
+def _patch_getattr():
+    from .interp import Interp
+    from .values import NativeMethod, Obj
+
+    prev = Interp.getattr_
+    if getattr(prev, "_c16", False):
+        return
+
+    def getattr_(self, v, name):
+        if name == "__getattribute__" and isinstance(v, Obj) and name not in v.fields:
+            return NativeMethod(lambda eng, recv, a, k: eng.getattr_(recv, a[0]), v, name)
+        return prev(self, v, name)
+
+    getattr_._c16 = True
+    Interp.getattr_ = getattr_
+
+
 def install():
     E = models.EXTRA_MODELS
     E[np.diff] = np_diff
@@ -413,14 +533,24 @@ def install():
     E[np.zeros] = _filled(0, _prev(np.zeros))
     E[np.ones] = _filled(1, _prev(np.ones))
     E[np.array] = np_array
+    E[np.full] = np_full
+    _patch_s2arr()  # (n x k).ndim == 2
     try:
         from scipy import signal
 
         E[signal.convolve] = sig_convolve
     except ImportError:  # pragma: no cover
         pass
-    # extension of the (shared) array store: routed through the module attribute, no edit of npmodels.py
+    E[np.reshape] = np_reshape
+    E[np.argmin] = np_argmin
+    E[np.unravel_index] = np_unravel_index
+    # extensions of shared engine behaviour, installed by wrapping (no textual edit of pyvc/*.py):
+    #  - slice store into a symbolic-length array (npmodels.setitem is looked up through the module at call time)
+    #  - storing +-inf into a concrete-shape array (narr.cast)
+    #  - obj.__getattribute__(name) on instances of repository classes (Interp.getattr_)
     npmodels.setitem = setitem
+    narr.cast = cast
+    _patch_getattr()
 
 
 install()
